@@ -117,7 +117,13 @@ def op_limit(n_candles: int) -> int:
 
 
 class LineMeter:
-    """Counts LINE events in selected hexital files while enabled (C07's work measure)."""
+    """Counts interpreter control-flow events in selected hexital files while enabled (C07's work
+    measure): PY_START (function entries), JUMP and BRANCH (loop iterations, conditionals).
+
+    LINE events were the first choice but turned out NOT to be bit-stable between the first and later
+    executions of the same code in one process (CPython emits a varying number of LINE events for a
+    line that contains a conditional expression, depending on specialisation state); calls, jumps
+    and branches are determined by the executed path alone."""
 
     def __init__(self, include_suffixes):
         self.root = _hexital_root()
@@ -141,8 +147,9 @@ class LineMeter:
     def install(self):
         if self.installed:
             return
-        mon.use_tool_id(TOOL_LINES, "hexsim-lines")
-        mon.register_callback(TOOL_LINES, E.LINE, self._on_line)
+        mon.use_tool_id(TOOL_LINES, "hexsim-work")
+        mon.register_callback(TOOL_LINES, E.JUMP, self._on_flow)
+        mon.register_callback(TOOL_LINES, E.BRANCH, self._on_flow)
         mon.register_callback(TOOL_LINES, E.PY_START, self._on_start)
         self.installed = True
 
@@ -153,7 +160,7 @@ class LineMeter:
         mon.free_tool_id(TOOL_LINES)
         self.installed = False
 
-    def _on_line(self, code, line):
+    def _on_flow(self, code, src, dst):
         if not self._wanted(code):
             return mon.DISABLE
         self.count += 1
@@ -161,17 +168,16 @@ class LineMeter:
     def _on_start(self, code, offset):
         if not self._wanted(code):
             return mon.DISABLE
+        self.count += 1
         if code.co_name == "_calculate_reading":
             self.calls += 1
 
     def measure(self, fn, *args, **kwargs):
-        """Returns (lines, _calculate_reading invocations) executed by fn(*args)."""
+        """Returns (control-flow steps, _calculate_reading invocations) executed by fn(*args)."""
         self.install()
         self.count = 0
         self.calls = 0
-        # restart_events so that locations DISABLEd earlier (by us) stay disabled only for
-        # unwanted code; wanted code never returns DISABLE.
-        mon.set_events(TOOL_LINES, E.LINE | E.PY_START)
+        mon.set_events(TOOL_LINES, E.JUMP | E.BRANCH | E.PY_START)
         try:
             fn(*args, **kwargs)
         finally:
